@@ -482,6 +482,11 @@ func makeGenbankOriginParser(length int) genbankSubparser {
 				return pars.NewError("sequence length cannot be negative", state.Position())
 			}
 
+			// The size of the block overflows for lengths near the largest int.
+			if toOriginLength(length) < 0 {
+				return pars.NewError("sequence length out of range", state.Position())
+			}
+
 			if err := state.Request(toOriginLength(length)); err != nil {
 				return pars.NewError("not enough bytes in state", state.Position())
 			}
